@@ -93,26 +93,52 @@ def r_pairing(cx):
 
 def prelude_values(f):
     """name -> shape of the value of each user variable defined before the first per-tuple loop, when that value is
-    computed in straight-line code from parameters only"""
+    computed in straight-line code from parameters only. A conditional value (`let DD = if .. {..} else {..}`) is
+    not compared itself (two clones may legitimately write the same choice in different ways); where it is the value
+    of a named variable it enters the expressions that use it as the atom ("var", name)."""
     pts = pertuple.per_tuple_loops(f)
     if not pts:
         return {}
     first = min(p.header for p in pts)
-    out = {}
-    # evaluate every named local at the entry of the first loop header
+    vals = []
     for l, nm in f.name_of_local.items():
         if l <= f.nargs:
             continue
         defs = f.defs().get(l, ())
         if not defs or any(f.innermost_loop(r[0]) is not None for r in defs):
             continue
-        if not all(f.dominates(r[0], first) for r in defs):
-            continue
+        dom = all(f.dominates(r[0], first) for r in defs)
         v = f.local_value(l, (first, 0))
         if v[0] == "unknown":
-            # dead at the header: take the value right after its last definition
-            last = max(defs, key=lambda r: (r[0], r[1]))
-            v = f._def_value_fwd(l, last)
+            if not dom:
+                # assigned in the arms of a conditional and dead at the loop: its value is the join after the arms
+                v = _join_value(f, l, defs, first)
+                if v is None:
+                    continue
+            else:
+                # dead at the header: take the value right after its last definition
+                last = max(defs, key=lambda r: (r[0], r[1]))
+                v = f._def_value_fwd(l, last)
+        elif not dom and v[0] != "phi":
+            continue
+        vals.append((nm, shape(v)))
+    named_phi = {}
+    for nm, v in vals:
+        if v[0] == "phi":
+            named_phi.setdefault(v, set()).add(nm)
+
+    def atoms(t):
+        if not isinstance(t, tuple):
+            return t
+        if t and t[0] == "phi" and t in named_phi and len(named_phi[t]) == 1:
+            return ("var", next(iter(named_phi[t])))
+        return tuple(atoms(x) for x in t)
+
+    out = {}
+    for nm, v in vals:
+        if v[0] == "phi":
+            continue
+        v = atoms(v)
         bad = []
 
         def visit(x):
@@ -125,8 +151,28 @@ def prelude_values(f):
         mir.walk(v, visit)
         if bad:
             continue
-        out.setdefault(nm, []).append(shape(v))
+        out.setdefault(nm, []).append(v)
     return {k: v[0] for k, v in out.items() if len(v) == 1}
+
+
+def _join_value(f, l, defs, first):
+    """value of local `l` at the first block that is dominated by none of its definitions but post-joins them: the
+    nearest block dominating `first` that all definitions reach; evaluated there if the local is live"""
+    blocks = {r[0] for r in defs}
+    b = first
+    seen = set()
+    cand = None
+    while b is not None and b not in seen:
+        seen.add(b)
+        if any(f.dominates(b, d) for d in blocks):
+            break
+        cand = b
+        nb = f.idom().get(b)
+        b = None if nb == b else nb
+    if cand is None:
+        return None
+    v = f.local_value(l, (cand, 0))
+    return v if v[0] == "phi" else None
 
 
 @rule("R-CLONE-AGREE", ["C01"])
